@@ -131,26 +131,26 @@ def sort_of(ty):
         s = z3.DeclareSort(ty.name)
     elif isinstance(ty, TList):
         d = z3.Datatype(k)
-        d.declare("mk", ("len", z3.IntSort()), ("arr", z3.ArraySort(z3.IntSort(), sort_of(ty.elem))))
+        d.declare("mk_" + k, ("len_" + k, z3.IntSort()), ("arr_" + k, z3.ArraySort(z3.IntSort(), sort_of(ty.elem))))
         s = d.create()
     elif isinstance(ty, TSet):
         s = z3.ArraySort(sort_of(ty.elem), z3.BoolSort())
     elif isinstance(ty, TDict):
         d = z3.Datatype(k)
         d.declare(
-            "mk",
-            ("dom", z3.ArraySort(sort_of(ty.k), z3.BoolSort())),
-            ("val", z3.ArraySort(sort_of(ty.k), sort_of(ty.v))),
+            "mk_" + k,
+            ("dom_" + k, z3.ArraySort(sort_of(ty.k), z3.BoolSort())),
+            ("val_" + k, z3.ArraySort(sort_of(ty.k), sort_of(ty.v))),
         )
         s = d.create()
     elif isinstance(ty, TTuple):
         d = z3.Datatype(k)
-        d.declare("mk", *[("f%d" % i, sort_of(e)) for i, e in enumerate(ty.elems)])
+        d.declare("mk_" + k, *[("f%d_%s" % (i, k), sort_of(e)) for i, e in enumerate(ty.elems)])
         s = d.create()
     elif isinstance(ty, TOpt):
         d = z3.Datatype(k)
-        d.declare("none")
-        d.declare("some", ("v", sort_of(ty.elem)))
+        d.declare("none_" + k)
+        d.declare("some_" + k, ("v_" + k, sort_of(ty.elem)))
         s = d.create()
     else:
         raise TypeError("no sort for %r" % (ty,))
@@ -303,6 +303,24 @@ def wf(val):
     if val.t is None:
         return []
     return wf_term(val.ty, val.t)
+
+
+def forall(vs, body, patterns=None):
+    """z3.ForAll with patterns when z3 accepts them (terms that simplify to ite/and are rejected)."""
+    if patterns:
+        try:
+            return z3.ForAll(vs, body, patterns=patterns)
+        except z3.Z3Exception:
+            good = []
+            for p_ in patterns:
+                try:
+                    z3.ForAll(vs, body, patterns=[p_])
+                    good.append(p_)
+                except z3.Z3Exception:
+                    pass
+            if good:
+                return z3.ForAll(vs, body, patterns=good)
+    return z3.ForAll(vs, body)
 
 
 class Unsupported(Exception):
